@@ -244,7 +244,9 @@ def oracle_case(lines, outs, seed=0):
             if not failed:
                 for asg in old_models(old_cnf, n_old, avars, rng):
                     assum = list(asg.items())
-                    if t[0] in ("amo", "exo") and F(asg):
+                    if t[0] in ("amo", "exo") and F(asg) and l[0] >= n_old:
+                        # completeness is claimed for a literal that was BUILT by this request (a fetched one is an old
+                        # variable, already constrained by what was said about it since: C13_amo_complete / C13_exo_complete)
                         assum2 = assum + ([l] if l[0] not in asg else [])
                         if (l[0] in asg and asg[l[0]] != l[1]) or S.solve(cnf, assum2) is None:
                             bad.append((i, f"{ln}: assignment {asg} satisfies the old clauses and the cardinality constraint but cannot make {res} true"))
